@@ -346,8 +346,8 @@ where
     let size = p.bound_plus_1();
     let domain = p.domain();
     let mut rng = tape::fork(Stream::Workload, "fri.poly");
-    let kind = tape::weighted(Stream::Faults, "fri.fault", &[0, 3, 2, 2, 3, 2, 2, 2, 3, 2, 2, 2, 2]);
-    let names = ["none", "high_degree", "random_function", "understated_bound", "layer_value_sub", "layer_proof_node_sub", "remainder_sub_plain", "remainder_sub_degree_raising", "remainder_sub_adaptive", "layer_drop", "layer_dup", "layer_swap", "commitment_sub"];
+    let kind = tape::weighted(Stream::Faults, "fri.fault", &[0, 3, 2, 2, 3, 2, 2, 2, 3, 2, 2, 2, 2, 2]);
+    let names = ["none", "high_degree", "random_function", "understated_bound", "layer_value_sub", "layer_proof_node_sub", "remainder_sub_plain", "remainder_sub_degree_raising", "remainder_sub_adaptive", "layer_drop", "layer_dup", "layer_swap", "commitment_sub", "remainder_sub_adaptive_without_its_commitment"];
     let name = names[kind];
     // the data the prover commits to
     let mut max_degree = size - 1;
@@ -437,7 +437,11 @@ where
             img.remainder = v;
             img.fix_lengths();
         },
-        8 => {
+        8 | 13 => {
+            if kind == 13 {
+                // the remainder commitment never reaches the verifier (lost message)
+                commitments.pop();
+            }
             // R' = R + c * prod (x - x_i) over the distinct last-layer query points: a different
             // polynomial within the degree bound that agrees with every folded evaluation
             let n = img.remainder.len() / eb;
@@ -534,9 +538,10 @@ where
             stats::count("outcome.rejected", 1);
             Ok(())
         },
-        Err(_) => {
+        Err(pn) => {
             // a crash is not acceptance; crash-freedom is C05's subject
             stats::count("outcome.panic_instead_of_error", 1);
+            stats::count(&format!("panic_site.{}", pn.site()), 1);
             Ok(())
         },
     }
